@@ -66,12 +66,14 @@ type callScript struct {
 	// CtxMD (streaming shapes): the handler sets / sends its metadata through grpc.SetHeader / SendHeader / SetTrailer on
 	// the stream's context - the only way open to code further down that is handed a context and no stream
 	CtxMD bool
+	// DupOpts (plain unary): the call carries two grpc.Header and two grpc.Trailer options
+	DupOpts bool
 }
 
 func (s callScript) String() string {
 	return fmt.Sprintf("%s pre=%v serverMsgs=%q mid=%v code=%d msg=%q plain=%v failAfter=%d clientMsgs=%q cancelAfter=%d deadline=%v outMD=%v inMD=%v viaStream=%v withCause=%v",
 		s.Shape, s.PreOps, s.ServerMsgs, s.MidOps, s.Code, s.Msg, s.PlainErr, s.FailAfter, s.ClientMsgs, s.CancelAfter, s.Deadline, s.OutMD, s.InMD, s.ViaStream, s.WithCause) +
-		fmt.Sprintf(" dynamicMessages=%v oldSchema=%v metadataViaContext=%v", s.Dynamic, s.OldSchema, s.CtxMD)
+		fmt.Sprintf(" dynamicMessages=%v oldSchema=%v metadataViaContext=%v twoHeaderAndTrailerOptions=%v", s.Dynamic, s.OldSchema, s.CtxMD, s.DupOpts)
 }
 
 // the client's own copy of the test API's file descriptor
@@ -410,7 +412,14 @@ func runClient(cc grpc.ClientConnInterface, srv *scriptedServer, sc callScript) 
 			break
 		}
 		var resp *testproto.UnaryResponse
-		resp, err = client.Unary(ctx, &testproto.UnaryRequest{Msg: sc.ClientMsgs[0]}, grpc.Header(&header), grpc.Trailer(&trailer))
+		if sc.DupOpts {
+			// a helper in the call chain added its own capture options to the caller's: every destination is filled
+			var header2, trailer2 metadata.MD
+			resp, err = client.Unary(ctx, &testproto.UnaryRequest{Msg: sc.ClientMsgs[0]}, grpc.Header(&header2), grpc.Trailer(&trailer2), grpc.Header(&header), grpc.Trailer(&trailer))
+			tr.Received = append(tr.Received, fmt.Sprintf("first capture: header=%v trailer=%v", userMD(header2), userMD(trailer2)))
+		} else {
+			resp, err = client.Unary(ctx, &testproto.UnaryRequest{Msg: sc.ClientMsgs[0]}, grpc.Header(&header), grpc.Trailer(&trailer))
+		}
 		if err == nil {
 			tr.Received = append(tr.Received, resp.Msg)
 		}
@@ -585,6 +594,7 @@ func genScript(t *rapid.T) callScript {
 		sc.ViaStream = rapid.IntRange(0, 2).Draw(t, "viaStream") == 0
 		sc.Dynamic = !sc.ViaStream && rapid.IntRange(0, 3).Draw(t, "dynamic") == 0
 		sc.OldSchema = sc.Dynamic && rapid.Bool().Draw(t, "oldSchema")
+		sc.DupOpts = !sc.ViaStream && !sc.Dynamic && rapid.IntRange(0, 3).Draw(t, "dupCallOptions") == 1
 	case "serverStream":
 		sc.Dynamic = rapid.IntRange(0, 3).Draw(t, "dynamic") == 0
 		sc.OldSchema = sc.Dynamic && rapid.Bool().Draw(t, "oldSchema")
